@@ -29,6 +29,7 @@ def check(ctx, tier):
     shape_guard(ctx, tk, f)
     operand_flow(ctx, tk, f)
     dtype_plumbing(ctx, tk, f)
+    result_by_ufunc(ctx, tk, f)
     geometry_equality(ctx, tk)
     safe_mode_store(ctx, tk)
     tk.purity("C04.c", [f, ctx.func(RA + "_broadcast_rows"), ctx.func("raggedshape.RaggedShape.broadcast_values"),
@@ -289,3 +290,28 @@ def safe_mode_store(ctx, tk):
     d = f.defaults.get("safe_mode")
     ctx.decide("C04.a", f, "refusals are on by default (safe_mode defaults to True)", isinstance(d, ast.Constant) and d.value is True,
                "default is %s" % (ast.unparse(d) if d is not None else None), key="safe-mode-default", engine="E6")
+
+
+def result_by_ufunc(ctx, tk, f):
+    """every array handed back by __array_ufunc__ holds data computed by the ufunc (or is a delegation / NotImplemented):
+    a result allocated any other way does not follow the ufunc's type rules (comparisons -> bool, true_divide -> float)"""
+    fa = ctx.fa(f)
+    up = f.params[1] if len(f.params) > 1 else "ufunc"
+    what = "a result array is built from what the ufunc returned, on every path"
+    for r in fa.cfg.returns():
+        if r.ast.value is None:
+            continue
+        tm = fa.term(r.ast.value, r)
+        for a in alts(tm):
+            if a.k == "global" and a.a[0] == "NotImplemented":
+                continue
+            if a.k != "call":
+                continue
+            ctor = (a.a[0].k == "global" and a.a[0].a[0] in ("RaggedArray",)) or (a.a[0].k == "attr" and a.a[0].a[1] == "__class__")
+            if not ctor or not a.a[1]:
+                continue           # delegations (self._reduce(...), getattr(ufunc, method)(...)) are judged in their callee
+            data = a.a[1][0]
+            via = any((x.k == "call" and any(y.k == "param" and y.a[0] == up for y in walk(x.a[0]))) for x in walk(data))
+            ctx.decide("C04.h", f, what, True if via else False,
+                       "`%s`: the data of this result is not computed by the ufunc, so its dtype is whatever was allocated (np.equal on an int8 array without "
+                       "cells comes back int8 instead of bool) and no operand check has run" % (a,), node=r.ast, key="by-ufunc:%d" % getattr(r, "lineno", 0), engine="E4")
